@@ -1138,3 +1138,71 @@ mod security_tests {
         assert_eq!(packet.payload, original_payload);
     }
 }
+
+// ---------------------------------------------------------------------------
+// Verification hooks (H4). Compiled only with `--cfg rustrtc_verif`; purely
+// additive observers/drivers of the private per-SSRC state. They call the real
+// `estimate_roc` / `update` code, never a copy.
+// ---------------------------------------------------------------------------
+#[cfg(rustrtc_verif)]
+impl SrtpSession {
+    /// `{ssrc -> (rollover_counter, last_sequence, srtcp_index)}` for every
+    /// receive context currently in the table.
+    pub fn verif_rx_snapshot(&self) -> std::collections::BTreeMap<u32, (u32, Option<u16>, u32)> {
+        self.rx_contexts
+            .iter()
+            .map(|(s, c)| (*s, (c.rollover_counter, c.last_sequence, c.rtcp_index)))
+            .collect()
+    }
+
+    /// Same for the transmit contexts.
+    pub fn verif_tx_snapshot(&self) -> std::collections::BTreeMap<u32, (u32, Option<u16>, u32)> {
+        self.tx_contexts
+            .iter()
+            .map(|(s, c)| (*s, (c.rollover_counter, c.last_sequence, c.rtcp_index)))
+            .collect()
+    }
+
+    /// Pretend every context was last used `d` earlier (makes the 60 s
+    /// stale-context eviction reachable without waiting). Returns false when
+    /// the monotonic clock cannot be moved back that far.
+    pub fn verif_age_contexts(&mut self, d: std::time::Duration) -> bool {
+        let mut ok = true;
+        for c in self
+            .rx_contexts
+            .values_mut()
+            .chain(self.tx_contexts.values_mut())
+        {
+            match c.last_used.checked_sub(d) {
+                Some(t) => c.last_used = t,
+                None => ok = false,
+            }
+        }
+        ok
+    }
+}
+
+#[cfg(rustrtc_verif)]
+impl SrtpContext {
+    /// Put this (scratch) context into the state `(roc, last_seq)`, run the real
+    /// rollover estimation for `seq`, then the real post-authentication update.
+    /// Returns `(guessed_roc, roc_after_update, last_seq_after_update)`.
+    #[inline]
+    pub fn verif_roc_step(
+        &mut self,
+        last_seq: Option<u16>,
+        roc: u32,
+        seq: u16,
+    ) -> (u32, u32, Option<u16>) {
+        self.last_sequence = last_seq;
+        self.rollover_counter = roc;
+        let guess = self.estimate_roc(seq);
+        self.update(seq, guess);
+        (guess, self.rollover_counter, self.last_sequence)
+    }
+
+    /// `(rollover_counter, last_sequence, srtcp_index)` of this context.
+    pub fn verif_state(&self) -> (u32, Option<u16>, u32) {
+        (self.rollover_counter, self.last_sequence, self.rtcp_index)
+    }
+}
